@@ -101,7 +101,20 @@ async fn start(cfg: &Value, discover_delay_ms: u64) -> Running {
     let port = free_port();
     let stop = CancellationToken::new();
     let st = stop.clone();
-    let handle = if let Some(w) = cfg["workers"].as_u64() {
+    let relisten = cfg["relisten"].as_bool().unwrap_or(false);
+    let handle = if relisten {
+        // the same Listener value is used for a second listen(): a first, idle one is started and stopped, then the one the scenario uses
+        tokio::spawn(async move {
+            let st0 = CancellationToken::new();
+            let c0 = st0.clone();
+            tokio::spawn(async move {
+                tokio::time::sleep(Duration::from_millis(120)).await;
+                c0.cancel();
+            });
+            let _ = l.listen(("127.0.0.1", port), st0).await;
+            l.listen(("127.0.0.1", port), st).await.map_err(|e| e.to_string())
+        })
+    } else if let Some(w) = cfg["workers"].as_u64() {
         // the listener on a runtime of its own with `w` worker threads (the clients keep the harness's runtime): what one connection
         // does to the scheduler's threads is then not masked by the spare threads of the harness
         let (tx, rx) = tokio::sync::oneshot::channel();
@@ -116,6 +129,9 @@ async fn start(cfg: &Value, discover_delay_ms: u64) -> Running {
         tokio::spawn(async move { l.listen(("127.0.0.1", port), st).await.map_err(|e| e.to_string()) })
     };
     // wait until the socket accepts
+    if relisten {
+        tokio::time::sleep(Duration::from_millis(300)).await; // the first, idle listen() is over by now
+    }
     let mut ok = false;
     for _ in 0..200 {
         if handle.is_finished() {
@@ -337,13 +353,28 @@ async fn park_unread(port: u16, proxied: bool) -> Option<Tcp> {
 }
 
 async fn good_client(port: u16, proxied: bool, wait_ms: u64) -> (String, u64) {
+    good_client_kind(port, proxied, wait_ms, "status").await
+}
+
+/// kind "login": the well-behaved client is a player ("Victim") who logs in completely and is transferred.
+async fn good_client_kind(port: u16, proxied: bool, wait_ms: u64, kind: &str) -> (String, u64) {
     let started = Instant::now();
     let mut outcome = "connect-error".to_string();
     if let Ok(mut t) = Tcp::connect(SocketAddr::new("127.0.0.1".parse().unwrap(), port), None).await {
         if proxied {
             let _ = t.send_raw(&proxy_v1(label_addr("ipA"), format!("10.0.0.1:{port}").parse().unwrap())).await;
         }
-        outcome = status_exchange(&mut t, None, Duration::from_millis(wait_ms)).await;
+        if kind == "login" {
+            let o = login(&mut t, 2, "Victim", 77, None, "success", Duration::from_millis(wait_ms)).await;
+            outcome = if o.login_success.is_some() {
+                let c = configuration(&mut t, true, true, Duration::from_millis(wait_ms)).await;
+                if c["end"] == "transfer" { "served".to_string() } else { format!("end:{}", c["end"].as_str().unwrap_or("?")) }
+            } else {
+                format!("stopped:{}", o.reached)
+            };
+        } else {
+            outcome = status_exchange(&mut t, None, Duration::from_millis(wait_ms)).await;
+        }
     }
     (outcome, started.elapsed().as_millis() as u64)
 }
@@ -364,6 +395,36 @@ async fn run_c16(sc: &Value) -> Value {
             }
             "unread-status" => {
                 if let Some(t) = park_unread(run.port, proxied).await {
+                    parked.push(t);
+                }
+            }
+            // twenty clients complete the whole login and then never acknowledge it (whatever a login holds must be given back at once)
+            "login-stall-20" => {
+                let mut hs = vec![];
+                for i in 0..20u128 {
+                    let port = run.port;
+                    hs.push(tokio::spawn(async move {
+                        let mut t = Tcp::connect(SocketAddr::new("127.0.0.1".parse().unwrap(), port), None).await.ok()?;
+                        if proxied {
+                            let _ = t.send_raw(&proxy_v1(label_addr("ipB"), format!("10.0.0.1:{port}").parse().unwrap())).await;
+                        }
+                        let _ = login(&mut t, 2, &format!("Staller{i}"), 100 + i, None, "success", Duration::from_millis(2500)).await;
+                        Some(t)
+                    }));
+                }
+                for h in hs {
+                    if let Ok(Some(t)) = h.await {
+                        parked.push(t);
+                    }
+                }
+            }
+            // somebody else CLAIMS the well-behaved player's name and id in Login Start and goes silent
+            "claim-victim" => {
+                if let Ok(mut t) = Tcp::connect(SocketAddr::new("127.0.0.1".parse().unwrap(), run.port), None).await {
+                    if proxied {
+                        let _ = t.send_raw(&proxy_v1(label_addr("ipB"), format!("10.0.0.1:{}", run.port).parse().unwrap())).await;
+                    }
+                    let _ = login(&mut t, 2, "Victim", 77, None, "loginstart", Duration::from_millis(500)).await;
                     parked.push(t);
                 }
             }
@@ -428,7 +489,8 @@ async fn run_c16(sc: &Value) -> Value {
         }
     }
     tokio::time::sleep(Duration::from_millis(200)).await;
-    let (outcome, latency) = if sc["cfg"]["bigStatus"].as_bool().unwrap_or(false) { ("served".to_string(), 0) } else { good_client(run.port, proxied, 4000).await };
+    let good_kind = sc["goodKind"].as_str().unwrap_or("status").to_string();
+    let (outcome, latency) = if sc["cfg"]["bigStatus"].as_bool().unwrap_or(false) { ("served".to_string(), 0) } else { good_client_kind(run.port, proxied, 4000, &good_kind).await };
     // a second well-behaved client after a quiet period in which the server gave up on the parked ones (their deadline passed)
     let timeout_ms = sc["cfg"]["timeoutMs"].as_u64().unwrap_or(3000);
     let (quiet_outcome, quiet_latency) = match sc["quietAfterMs"].as_u64() {
@@ -530,15 +592,30 @@ async fn run_c17(sc: &Value) -> Value {
             json!({"stage": stage, "end": end, "startMs": started, "endMs": eof.map(|_| t0.elapsed().as_millis() as u64).unwrap_or(0), "closed": eof.is_some(), "cooperating": coop})
         }));
     }
-    tokio::time::sleep(Duration::from_millis(sc["stopAfterMs"].as_u64().unwrap_or(400))).await;
+    let burst = sc["burst"].as_u64().unwrap_or(0);
+    let stop_after = sc["stopAfterMs"].as_u64().unwrap_or(400);
+    tokio::time::sleep(Duration::from_millis(stop_after.saturating_sub(if burst > 0 { 100 } else { 0 }))).await;
+    if burst > 0 {
+        // a burst of ordinary clients right before the stop: the accept queue is not empty when the stop is requested
+        for _ in 0..burst {
+            tokio::spawn(async move {
+                if let Ok(mut t) = Tcp::connect(SocketAddr::new("127.0.0.1".parse().unwrap(), port), None).await {
+                    let _ = status_exchange(&mut t, None, Duration::from_millis(1500)).await;
+                }
+            });
+        }
+        tokio::time::sleep(Duration::from_millis(100)).await;
+    }
     run.stop.cancel();
     let stop_ms = t0.elapsed().as_millis() as u64;
     // late arrivals
     let mut late_tasks = vec![];
     let late_proxied = sc["cfg"]["proxy"].as_str().unwrap_or("off") != "off";
+    let late_soon = sc["lateSoon"].as_bool().unwrap_or(false);
     for k in 0..sc["late"].as_u64().unwrap_or(1) {
         late_tasks.push(tokio::spawn(async move {
-            tokio::time::sleep(Duration::from_millis(200 + 150 * k)).await;
+            // the first ones soon after the stop and close to each other (60, 90, 120 ... ms), the others further apart
+            tokio::time::sleep(Duration::from_millis(if late_soon { 60 + 30 * k } else { 200 + 150 * k })).await;
             match Tcp::connect(SocketAddr::new("127.0.0.1".parse().unwrap(), port), None).await {
                 Err(_) => json!({"outcome": "refused", "bytes": 0}),
                 Ok(mut t) => {
